@@ -393,6 +393,17 @@ enforce: spif_ustr_set_size
 #else
 # define CMP_SELF_PRE(o) ((o) == NULL || STR_SELF_PRE(o))
 #endif
+/* the result when one side is an object without text yet: the empty text equals only an empty text and is below
+ * every other one (t = the other side's text pointer) */
+#define EMPTY_VS(t)  (((t) == NULL || (t)[0] == 0) ? SPIF_CMP_EQUAL : SPIF_CMP_LESS)
+#define VS_EMPTY(t)  (((t) == NULL || (t)[0] == 0) ? SPIF_CMP_EQUAL : SPIF_CMP_GREATER)
+#if defined(U_EMPTY)
+# define CMP_RESULT(uf_expr, other_text, self_text) (R == EMPTY_VS(other_text))
+#elif defined(U_OTHER_EMPTY)
+# define CMP_RESULT(uf_expr, other_text, self_text) (R == VS_EMPTY(self_text))
+#else
+# define CMP_RESULT(uf_expr, other_text, self_text) SGN_IS(uf_expr, R)
+#endif
 /* cnt of the n-variants is handed to libc as size_t: a count, not negative */
 #define CNT_PRE(cnt) ((cnt) >= 0)
 
@@ -412,7 +423,7 @@ __CPROVER_requires(CMP_SELF_PRE(self))
 __CPROVER_requires(STR_OTHER_PRE(other))
 __CPROVER_assigns()
 CMP_NULL_RULES(self, other)
-__CPROVER_ensures(self == NULL || other == NULL || SGN_IS(UF((char *) self->s, (char *) other->s), R))
+__CPROVER_ensures(self == NULL || other == NULL || CMP_RESULT(UF((char *) self->s, (char *) other->s), other->s, self->s))
 ;
 void harness(void)
 {
@@ -438,7 +449,7 @@ __CPROVER_requires(CNT_PRE(cnt))
 __CPROVER_assigns()
 CMP_NULL_RULES(self, other)
 __CPROVER_ensures(self == NULL || other == NULL || cnt != 0 || R == SPIF_CMP_EQUAL)
-__CPROVER_ensures(self == NULL || other == NULL || cnt == 0 || SGN_IS(UF((char *) self->s, (char *) other->s, (size_t) cnt), R))
+__CPROVER_ensures(self == NULL || other == NULL || cnt == 0 || CMP_RESULT(UF((char *) self->s, (char *) other->s, (size_t) cnt), other->s, self->s))
 ;
 void harness(void)
 {
@@ -462,7 +473,7 @@ __CPROVER_requires(CMP_SELF_PRE(self))
 __CPROVER_requires(other == NULL || VCSTR_FRESH(other, vg_n1))
 __CPROVER_assigns()
 CMP_NULL_RULES(self, other)
-__CPROVER_ensures(self == NULL || other == NULL || SGN_IS(UF((char *) self->s, (char *) other), R))
+__CPROVER_ensures(self == NULL || other == NULL || CMP_RESULT(UF((char *) self->s, (char *) other), other, self->s))
 ;
 void harness(void)
 {
@@ -488,7 +499,7 @@ __CPROVER_requires(CNT_PRE(cnt))
 __CPROVER_assigns()
 CMP_NULL_RULES(self, other)
 __CPROVER_ensures(self == NULL || other == NULL || cnt != 0 || R == SPIF_CMP_EQUAL)
-__CPROVER_ensures(self == NULL || other == NULL || cnt == 0 || SGN_IS(UF((char *) self->s, (char *) other, (size_t) cnt), R))
+__CPROVER_ensures(self == NULL || other == NULL || cnt == 0 || CMP_RESULT(UF((char *) self->s, (char *) other, (size_t) cnt), other, self->s))
 ;
 void harness(void)
 {
